@@ -113,8 +113,9 @@ def _rank_offset(e, order: int):
 
 
 def run(chk, repo: Repo):
-    chk.rule("C20-R7", "results of memoised (lru_cache) builders are never written into by their callers (a shared stencil patched for one boundary "
-                       "condition would change every operator built from the same cache entry)", floor=1)
+    chk.rule("C20-R7", "shared matrices are never written into: results of memoised (lru_cache) builders, matrices obtained from another object's accessor "
+                       "(get_matrix()), and values of module-level keyed caches (a shared stencil patched for one boundary condition would change every operator "
+                       "built from the same entry)", floor=1)
     from ..memo import memo_rule
     from ..memo import handout_methods, keyed_cache_rule
     keyed_cache_rule(chk, repo, "C20-R7", ("cuqi/operator/", "cuqi/distribution/", "cuqi/geometry/"))
